@@ -88,10 +88,10 @@ theorem strictEqF_step {fuel : Nat} (ih : StrictEq fo host bodies fuel) (cur : N
   | cond onTrue c t =>
     simp only [wfE, Bool.and_eq_true] at hw
     simp only [evalFS, evalF]
-    rw [ihF cur c st hw.1.1]
+    rw [ihF cur c st hw.1]
     generalize evalF fo host bodies cur fuel c st = o
     rcases o with ⟨⟨vc | vc, st1⟩⟩ | e | _ <;> dsimp only <;> try rfl
-    rw [ihF cur t st1 hw.1.2]
+    rw [ihF cur t st1 hw.2]
   | chain arms final =>
     rw [wfE_chain] at hw
     simp only [Bool.and_eq_true] at hw
@@ -103,10 +103,10 @@ theorem strictEqF_step {fuel : Nat} (ih : StrictEq fo host bodies fuel) (cur : N
   | and l r =>
     simp only [wfE, Bool.and_eq_true] at hw
     simp only [evalFS, evalF]
-    rw [ihF cur l st hw.1.1]
+    rw [ihF cur l st hw.1]
     generalize evalF fo host bodies cur fuel l st = o
     rcases o with ⟨⟨vl | vl, st1⟩⟩ | e | _ <;> dsimp only <;> try rfl
-    rw [ihF cur r st1 hw.1.2]
+    rw [ihF cur r st1 hw.2]
     by_cases hc : vl.truthy = true
     · simp only [hc, if_true]
       generalize evalF fo host bodies cur fuel r st1 = o
@@ -115,10 +115,10 @@ theorem strictEqF_step {fuel : Nat} (ih : StrictEq fo host bodies fuel) (cur : N
   | or l r =>
     simp only [wfE, Bool.and_eq_true] at hw
     simp only [evalFS, evalF]
-    rw [ihF cur l st hw.1.1]
+    rw [ihF cur l st hw.1]
     generalize evalF fo host bodies cur fuel l st = o
     rcases o with ⟨⟨vl | vl, st1⟩⟩ | e | _ <;> dsimp only <;> try rfl
-    rw [ihF cur r st1 hw.1.2]
+    rw [ihF cur r st1 hw.2]
     by_cases hc : vl.truthy = true
     · simp only [hc, if_true]
     · simp only [hc]
@@ -200,11 +200,11 @@ theorem strictEq_step (hb : ∀ id b, lookupBody bodies id = some b → wfE b = 
       obtain ⟨onTrue, c, t⟩ := a
       simp only [wfEArms, Bool.and_eq_true] at hwa
       simp only [evalChainS, evalChain]
-      rw [ihF cur c st hwa.1.1.1]
+      rw [ihF cur c st hwa.1.1]
       generalize evalF fo host bodies cur fuel c st = o
       rcases o with ⟨⟨vc | vc, st1⟩⟩ | e | _ <;> dsimp only <;> try rfl
       by_cases hc : (vc.truthy == onTrue) = true
-      · simp only [hc, if_true]; exact ihF cur t st1 hwa.1.1.2
+      · simp only [hc, if_true]; exact ihF cur t st1 hwa.1.2
       · simp only [hc]; exact ihC cur rest fe st1 hwa.2 hwf
   · intro cur instr useRight f x st
     simp only [applyValsS, applyVals]
